@@ -12,6 +12,7 @@ CONSTANTS
   DefaultLife = 100
   PermTO = 40
   BindTO = 30
+  SlowDial = FALSE
   MaxDepth = 5
 CONSTRAINT DepthBound
 
